@@ -594,7 +594,10 @@ def gen_layout(rng, words, limit, feats):
             if col + pre_b + 2 + t > maxw:
                 k = "newline"
             else:
-                gaps.append({"k": "amp", "pre": pre_b, "t": t, "n": n})
+                # layout choices compose: C comment lines may stand between the '&' line and its continuation,
+                # whatever the indentation of the continuation (0-8 blanks)
+                cs = [gen_comment(rng) for _ in range(rng.randint(1, 2))] if "comments" in feats and rng.random() < 0.4 else []
+                gaps.append({"k": "amp", "pre": pre_b, "t": t, "cs": cs, "n": n})
                 col = n + len(w)
                 continue
         if k == "dollar":
@@ -652,6 +655,7 @@ def render_py(layout):
             cur = " " * (5 + g["n"])
         elif g["k"] == "amp":
             lines.append(cur + " " * (g["pre"] + 1) + "&" + " " * g["t"])
+            lines += [cline(c) for c in g.get("cs", [])]
             cur = " " * g["n"]
         elif g["k"] == "dollar":
             lines.append(cur + " " * (g["pre"] + 1) + "$" + g["text"])
